@@ -10,11 +10,17 @@ package main
 
 import (
 	"bufio"
+	"context"
 	"encoding/json"
 	"fmt"
 	"net"
 	"os"
 	"strconv"
+	"sync"
+
+	"github.com/tochemey/goakt/v4/actor"
+	"github.com/tochemey/goakt/v4/log"
+	"github.com/tochemey/goakt/v4/remote"
 )
 
 func fatal(v ...any) {
@@ -51,21 +57,53 @@ func readNDJSON[T any](path string) []T {
 	return out
 }
 
+var (
+	portsMu   sync.Mutex
+	portsUsed = map[int]bool{}
+)
+
+// freePorts returns n TCP ports that are free now and were never handed out by this process before (worlds are
+// created concurrently; the operating system may hand the same ephemeral port to two of them).
 func freePorts(n int) []int {
+	portsMu.Lock()
+	defer portsMu.Unlock()
 	var ls []net.Listener
 	var ports []int
-	for i := 0; i < n; i++ {
+	for len(ports) < n {
 		l, err := net.Listen("tcp", "127.0.0.1:0")
 		if err != nil {
 			fatal("no free port:", err)
 		}
 		ls = append(ls, l)
-		ports = append(ports, l.Addr().(*net.TCPAddr).Port)
+		p := l.Addr().(*net.TCPAddr).Port
+		if !portsUsed[p] {
+			portsUsed[p] = true
+			ports = append(ports, p)
+		}
 	}
 	for _, l := range ls {
 		l.Close()
 	}
 	return ports
+}
+
+// startSystem starts a remoting-enabled actor system on a free port.  Another process may grab the port between
+// its discovery and the bind (the machine is shared), so a failed start is retried on a fresh port.
+func startSystem(name string) (actor.ActorSystem, int) {
+	var last error
+	for attempt := 0; attempt < 8; attempt++ {
+		port := freePorts(1)[0]
+		sys, err := actor.NewActorSystem(name, actor.WithLogger(log.DiscardLogger), actor.WithRemote(remote.NewConfig("127.0.0.1", port)))
+		if err != nil {
+			fatal(err)
+		}
+		if err = sys.Start(context.Background()); err == nil {
+			return sys, port
+		}
+		last = err
+	}
+	fatal("start:", last)
+	return nil, 0
 }
 
 func main() {
@@ -83,6 +121,11 @@ func main() {
 			fatal("usage: clusterops sched-claim <behaviours> <trace>")
 		}
 		schedClaimMain(os.Args[2], os.Args[3])
+	case "sched-longstall":
+		if len(os.Args) != 3 {
+			fatal("usage: clusterops sched-longstall <trace>")
+		}
+		schedLongStallMain(os.Args[2])
 	case "sched-time":
 		if len(os.Args) != 4 {
 			fatal("usage: clusterops sched-time <behaviours> <trace>")
